@@ -35,7 +35,7 @@ ASSUMPTIONS = ["positional items stay within the list levels above the record (b
                "regular and variable-length list types are compared as 'list' (broadcasting may turn one into the other)"]
 PLAN = {
     "quick": [{"flavour": "plain", "cases": 12000}, {"flavour": "san", "cases": 2000}],
-    "thorough": [{"flavour": "plain", "cases": 600000}, {"flavour": "san", "cases": 150000}],
+    "thorough": [{"flavour": "plain", "cases": 180000}, {"flavour": "san", "cases": 40000}],
 }
 WALL_CAP = {"quick": 900, "thorough": 3300}
 FORK_EACH = False
@@ -116,13 +116,16 @@ def _wrappers_of(T):
 
 
 @st.composite
-def record_array(draw, allow_union=True, allow_option=True, min_fields=0, min_len=0):
+def record_array(draw, allow_union=True, allow_option=True, min_fields=0, min_len=0, bare=False):
     R = draw(record_types(min_fields=min_fields))
-    T = draw(wrapped(R, allow_union, allow_option))
+    T = R if bare else draw(wrapped(R, allow_union, allow_option))
     vals = draw(gen.values(T, CFGX))
     if len(vals) < min_len:
         vals = vals + draw(gen.values(T, CFGX, n=min_len - len(vals)))
-    desc = gen.canonical(T, vals) if draw(st.integers(0, 5)) == 0 else draw(gen.encode(T, vals, CFGX))
+    if bare:
+        desc = draw(gen.encode(T, vals, CFGX, allow_indexed=False))     # a RecordArray node itself (setitem_field, field(i))
+    else:
+        desc = gen.canonical(T, vals) if draw(st.integers(0, 5)) == 0 else draw(gen.encode(T, vals, CFGX))
     return T, vals, desc
 
 
@@ -247,7 +250,7 @@ def zip_case(draw):
 
 @st.composite
 def withfield_case(draw):
-    T, vals, desc = draw(record_array(allow_union=False))
+    T, vals, desc = draw(record_array(allow_union=False, bare=draw(st.integers(0, 3)) == 0))
     R = FM.record_type(T)
     names = FM.names_of(R)
     where = draw(st.sampled_from((names or [None]) + ["new", "new", None]))
